@@ -15,7 +15,7 @@ use crate::util::*;
 pub const PROP: Prop = Prop {
     id: "C20",
     level: "exploration",
-    rule: "(round 8: strings that look like printed notations - #:foo, :a, a quote and a word, an opening parenthesis, a character literal, r#x ... - through every string, symbol and keyword constructor) (rounds 6-7: != as the negation of == for every value/primitive pairing; NaNs with sign and payload keep their bits) three generated families: (kinds) arbitrary values checked for exactly-one-kind, is_x <=> as_x.is_some() and as_name; (conv) every From conversion of integers of all eight widths (boundary biased), f32/f64 including NaN/inf/-0/subnormals, strings, chars, bools, byte slices, pairs, Cons and vectors, checked against the payload; (cmp) (value, primitive) pairs including cross-sign and cross-kind ones in all four operand forms, checked against the comparison of the primitive with as_i64/as_u64/as_f64/as_bool/as_str; non-trivial = a numeric case at a width boundary, a cross-sign or cross-kind comparison, or a kind check on a non-number; distinct by digest of the case",
+    rule: "(round 9: the kind predicates and accessors on symbols, keywords and strings whose text looks like the notation of another kind) (round 8: strings that look like printed notations - #:foo, :a, a quote and a word, an opening parenthesis, a character literal, r#x ... - through every string, symbol and keyword constructor) (rounds 6-7: != as the negation of == for every value/primitive pairing; NaNs with sign and payload keep their bits) three generated families: (kinds) arbitrary values checked for exactly-one-kind, is_x <=> as_x.is_some() and as_name; (conv) every From conversion of integers of all eight widths (boundary biased), f32/f64 including NaN/inf/-0/subnormals, strings, chars, bools, byte slices, pairs, Cons and vectors, checked against the payload; (cmp) (value, primitive) pairs including cross-sign and cross-kind ones in all four operand forms, checked against the comparison of the primitive with as_i64/as_u64/as_f64/as_bool/as_str; non-trivial = a numeric case at a width boundary, a cross-sign or cross-kind comparison, or a kind check on a non-number; distinct by digest of the case",
     assumptions: &[
         "the pair (is_f64, as_f64) is exempt from the is_x <=> as_x rule because the statement itself requires as_f64 to convert integers",
         "a float compares with an integer payload through as_f64 (nearest double), as the statement assigns",
